@@ -226,7 +226,9 @@ Lemma shortest_spec amp r fl f : shortest_params area S G R = (amp, r, fl, f) ->
   amp * (r + fl) == area /\
   (* at most two rasters above any continuous-time trapezoid of this area: plateau amplitude h in
      [0, G], area-equivalent duration T (area = h*T), ramps at least h/S *)
-  (forall h T, 0 <= h -> h <= G -> 0 < T -> Qabs area == h * T -> r + fl + f <= T + h / S + 2 * R).
+  (forall h T, 0 <= h -> h <= G -> 0 < T -> Qabs area == h * T -> r + fl + f <= T + h / S + 2 * R) /\
+  (* the designer's own result passes the limit checks that follow *)
+  Qabs amp <= G + eps /\ Qabs amp / r <= S.
 Proof.
   unfold shortest_params. fold sp_rise1.
   destruct rise1_facts as [k [Hk [Ek [Hsq Hpred]]]].
@@ -288,6 +290,12 @@ Proof.
       rewrite E2, Eec. ring. }
     split.
     { unfold amp. field. lra. }
+    split; [|split].
+    2:{ pose proof eps_nonneg. fold amp. lra. }
+    2:{ fold amp r2. apply Qdiv_le_iff; [apply Qlt_le_trans with R; [exact HR|unfold r2; apply Qmax_ub_r]|].
+        assert (Ht : t <= r2).
+        { apply Qle_trans with (ceil_raster t R); [apply ceil_raster_ge; exact HR|unfold r2; apply Qmax_ub_l]. }
+        unfold t in Ht. apply Qdiv_le_iff in Ht; [|exact HS]. rewrite Qmult_comm. exact Ht. }
     intros h T Hh0 HhG HT Earea.
     (* e + r2 < |area|/G + G/S + 2R <= T + h/S + 2R *)
     assert (Hgoal : Qabs area / G + G / S <= T + h / S).
@@ -321,6 +329,11 @@ Proof.
     { exists 0%Z. split; [lia|]. change (inject_Z 0) with 0. ring. }
     split.
     { field. lra. }
+    split; [|split].
+    2:{ apply Qltb_false in B. exact B. }
+    2:{ rewrite (Qabs_div_pos _ _ Hr1). apply Qdiv_le_iff; [exact Hr1|]. apply Qdiv_le_iff; [exact Hr1|].
+        apply (Qdiv_le_iff (Qabs area) S _ HS) in Hsq.
+        assert (X : S * sp_rise1 * sp_rise1 == sp_rise1 * sp_rise1 * S) by ring. rewrite X. exact Hsq. }
     intros h T Hh0 HhG HT Earea.
     assert (Hy : 0 <= h / S) by (apply Qdiv_pos_nonneg; assumption).
     destruct (Z.eq_dec k 1) as [K1|K1].
@@ -435,7 +448,11 @@ Lemma flat_area_path_inv fa dur ft r0 f0 amp ro fl fo :
   flat_area_path fa dur ft r0 f0 = OK (amp, ro, fl, fo) ->
   dur = None /\ ft = Some fl /\ ~ fl == 0 /\ amp = fa / fl /\ ro = r0 /\ fo = f0.
 Proof.
-  unfold flat_area_path. destruct dur; [discriminate|]. destruct ft as [t|]; [|discriminate].
+  unfold flat_area_path. destruct dur; [discriminate|].
+  destruct ft as [t|].
+  2:{ destruct r0 as [r|], f0 as [f|]; try discriminate.
+      - destruct (Qle_bool r 0 || Qle_bool f 0); discriminate.
+      - destruct (Qle_bool r 0); discriminate. }
   destruct (isz t) eqn:Z; [discriminate|]. apply isz_false in Z.
   intro H. apply OK_inj4 in H. destruct H as (<- & <- & <- & <-). repeat split; auto.
 Qed.
@@ -480,7 +497,7 @@ Lemma finish_inv amp r0 fl f0 G S R d g : finish (amp, r0, fl, f0) G S R d = OK 
   | None, None => t_rise g = shortest_rise_time amp S R /\ t_fall g = shortest_rise_time amp S R
   | _, _ => r0 = Some (t_rise g) /\ f0 = Some (t_fall g)
   end /\
-  ~ t_rise g == 0 /\ ~ t_fall g == 0 /\
+  0 < t_rise g /\ 0 < t_fall g /\ 0 <= fl /\
   Qabs amp <= G + eps /\ Qabs amp / t_rise g <= S * (1 + eps) /\ Qabs amp / t_fall g <= S * (1 + eps).
 Proof.
   unfold finish.
@@ -495,12 +512,13 @@ Proof.
       try (split; [exact H1|exact H2]); try discriminate.
     injection H1 as <-. injection H2 as <-. split; reflexivity. }
   destruct rf as [ro fo].
-  destruct (Qltb (G + eps) (Qabs amp)) eqn:C1; [discriminate|]. apply Qltb_false in C1.
   destruct ro as [r|]; [|discriminate].
-  destruct (isz r) eqn:Z1; [discriminate|]. apply isz_false in Z1.
-  destruct (Qltb _ (Qabs amp / r)) eqn:C2; [discriminate|]. apply Qltb_false in C2.
+  destruct (Qle_bool r 0) eqn:Z1; [discriminate|]. apply Qle_bool_false in Z1.
   destruct fo as [f|]; [|discriminate].
-  destruct (isz f) eqn:Z2; [discriminate|]. apply isz_false in Z2.
+  destruct (Qle_bool f 0) eqn:Z2; [discriminate|]. apply Qle_bool_false in Z2.
+  destruct (Qltb fl 0) eqn:Z3; [discriminate|]. apply Qltb_false in Z3.
+  destruct (Qltb (G + eps) (Qabs amp)) eqn:C1; [discriminate|]. apply Qltb_false in C1.
+  destruct (Qltb _ (Qabs amp / r)) eqn:C2; [discriminate|]. apply Qltb_false in C2.
   destruct (Qltb _ (Qabs amp / f)) eqn:C3; [discriminate|]. apply Qltb_false in C3.
   intro H. injection H as <-. cbn [t_amplitude t_rise t_flat t_fall t_area t_flat_area t_delay].
   specialize (RF r f eq_refl). repeat split; auto.
@@ -546,7 +564,7 @@ Ltac trap_start H :=
   apply make_trap_inv in H;
   destruct H as (HG & HS & HR & [[[amp ro] fl] fo] & HP & HF);
   apply finish_inv in HF;
-  destruct HF as (Eamp & Efl & Edel & Earea & Efa & Hrf & Hrz & Hfz & Lg & Lr & Lf).
+  destruct HF as (Eamp & Efl & Edel & Earea & Efa & Hrf & Hrp & Hfp & Hflp & Lg & Lr & Lf).
 
 Lemma ramps_of_some (ro fo : option Q) (r f : Q) (X Y : Prop) (gr gf : Q) :
   ro = Some r -> fo = Some f ->
@@ -644,11 +662,17 @@ Qed.
 (* effective limits, up to the code's slack *)
 Lemma trap_within_limits_l a g : make_trap a = OK g ->
   Qabs (t_amplitude g) <= eff_max_grad a + eps /\
-  ~ t_rise g == 0 /\ ~ t_fall g == 0 /\
+  0 < t_rise g /\ 0 < t_fall g /\
   Qabs (t_amplitude g) / t_rise g <= eff_max_slew a * (1 + eps) /\
   Qabs (t_amplitude g) / t_fall g <= eff_max_slew a * (1 + eps).
 Proof.
   intros H. trap_start H. rewrite Eamp. repeat split; assumption.
+Qed.
+
+(* well-formed timing of every returned event *)
+Lemma trap_wellformed_l a g : make_trap a = OK g -> 0 < t_rise g /\ 0 <= t_flat g /\ 0 < t_fall g.
+Proof.
+  intros H. trap_start H. rewrite Efl. repeat split; assumption.
 Qed.
 
 Lemma trap_delay_l a g : make_trap a = OK g -> t_delay g = opt_default (a_delay a) trap_default_delay.
@@ -833,31 +857,8 @@ Proof.
 Qed.
 
 (* ---- the flat time is never negative ---------------------------------------------------------- *)
-Lemma trap_flat_nonneg_l a g : make_trap a = OK g ->
-  (forall t, a_flat_time a = Some t -> 0 <= t) -> 0 <= t_flat g.
-Proof.
-  intros H Hreq. trap_start H. rewrite Efl.
-  destruct (path_cases a _ HP) as [[A HA]|[[FA HA]|[h HA]]].
-  - destruct (path_area a A _ HA HP) as (HP' & _ & _). apply area_path_inv in HP'.
-    destruct HP' as [(d' & a' & r & fls & f & _ & _ & _ & SP & Hmin & -> & _)
-                   |[(d' & r & f & _ & _ & _ & _ & _ & Hle & -> & _)
-                   |[(t' & r & f & Ct & _ & _ & -> & _)
-                   |(r & f & _ & _ & SP & _)]]].
-    + destruct (shortest_spec A _ _ _ HS HG HR _ _ _ _ SP) as (_ & _ & (m & Hm & Em) & _).
-      assert (0 <= fls).
-      { rewrite Em. apply Qmult_le_0_compat; [|lra]. change 0 with (inject_Z 0). rewrite <- Zle_Qle. exact Hm. }
-      lra.
-    + lra.
-    + apply Hreq. exact Ct.
-    + destruct (shortest_spec A _ _ _ HS HG HR _ _ _ _ SP) as (_ & _ & (m & Hm & Em) & _).
-      rewrite Em. apply Qmult_le_0_compat; [|lra]. change 0 with (inject_Z 0). rewrite <- Zle_Qle. exact Hm.
-  - destruct (path_flat_area a FA _ HA HP) as (HP' & _ & _). apply flat_area_path_inv in HP'.
-    destruct HP' as (_ & C & _). apply Hreq. exact C.
-  - destruct (path_amplitude a h _ HA HP) as (HP' & _ & _). apply amplitude_path_inv in HP'.
-    destruct HP' as (_ & _ & [(d' & r & f & _ & _ & _ & _ & _ & ->)|(_ & C)]).
-    + apply Qmax_ub_r.
-    + apply Hreq. exact C.
-Qed.
+Lemma trap_flat_nonneg_l a g : make_trap a = OK g -> 0 <= t_flat g.
+Proof. intro H. apply (trap_wellformed_l a g H). Qed.
 
 (* ---- area-only request: at most two rasters above ANY continuous-time trapezoid within the limits *)
 Lemma trap_near_optimal_l a g A : make_trap a = OK g ->
@@ -876,7 +877,7 @@ Proof.
                  |(r & f & _ & _ & SP & Hro & Hfo)]]];
     try (rewrite Hd in C; discriminate); try (rewrite Hft in C; discriminate).
   destruct (ramps_of_some _ _ _ _ _ _ _ _ Hro Hfo Hrf) as [-> ->].
-  destruct (shortest_spec A _ _ _ HS HG HR _ _ _ _ SP) as (_ & _ & _ & _ & Hopt).
+  destruct (shortest_spec A _ _ _ HS HG HR _ _ _ _ SP) as (_ & _ & _ & _ & Hopt & _).
   set (T := rc / 2 + fc + flc / 2) in *.
   assert (HT : 0 < T) by (unfold T; rewrite !Qhalf_mul; lra).
   assert (EA : Qabs A == Qabs c * T).
@@ -938,6 +939,43 @@ Definition err_is {A} (r : tresult A) (e : trap_err) : bool :=
   | Err e' => match e, e' with
               | E_dur_short_amp, E_dur_short_amp | E_min_duration, E_min_duration
               | E_not_possible, E_not_possible | E_amp, E_amp | E_slew_rise, E_slew_rise
-              | E_slew_fall, E_slew_fall | E_unbound, E_unbound => true
+              | E_slew_fall, E_slew_fall | E_unbound, E_unbound | E_timing, E_timing => true
               | _, _ => false end
   end.
+
+(* ---- an area-only request on a system with positive limits always returns an event: the shortest-
+   parameter routine never produces a negative flat time (plateau branch: nonlinear argument in
+   [shortest_spec]) and its amplitude and ramps pass the limit checks ------------------------------- *)
+Lemma trap_area_only_total_l a A : a_channel_ok a = true -> a_area a = Some A ->
+  a_flat_area a = None -> a_amplitude a = None -> a_duration a = None -> a_flat_time a = None ->
+  0 < eff_max_grad a -> 0 < eff_max_slew a -> 0 < raster_of a ->
+  exists g, make_trap a = OK g.
+Proof.
+  intros Hc HA Hfa Ham Hd Hft HG HS HR.
+  unfold make_trap. rewrite Hc, HA, Hfa, Ham, Hd, Hft. cbn [negb is_some andb].
+  apply Qltb_lt in HG, HS, HR. rewrite HG, HS, HR. cbn [andb negb].
+  apply Qltb_lt in HG, HS, HR.
+  unfold area_path.
+  destruct (shortest_params A (eff_max_slew a) (eff_max_grad a) (raster_of a)) as [[[amp r] fl] f] eqn:SP.
+  destruct (shortest_spec A _ _ _ HS HG HR _ _ _ _ SP)
+    as (Ef & (k & Hk & Ek) & (m & Hm & Em) & _ & _ & Lg & Ls).
+  subst f. unfold finish.
+  assert (Hr : 0 < r).
+  { rewrite Ek. apply Qmult_lt_0_compat; [|exact HR]. change 0 with (inject_Z 0). rewrite <- Zlt_Qlt. lia. }
+  assert (Hfl : 0 <= fl).
+  { rewrite Em. apply Qmult_le_0_compat; [|lra]. change 0 with (inject_Z 0). rewrite <- Zle_Qle. exact Hm. }
+  pose proof eps_nonneg as He.
+  assert (Ls' : Qabs amp / r <= eff_max_slew a * (1 + eps)).
+  { eapply Qle_trans; [exact Ls|]. rewrite <- (Qmult_1_r (eff_max_slew a)) at 1.
+    rewrite (Qmult_comm (eff_max_slew a) 1), (Qmult_comm (eff_max_slew a) (1 + eps)).
+    apply Qmult_le_compat_r; lra. }
+  assert (B1 : Qle_bool r 0 = false).
+  { destruct (Qle_bool r 0) eqn:E; [|reflexivity]. apply Qle_bool_iff in E. lra. }
+  assert (B2 : Qltb fl 0 = false).
+  { destruct (Qltb fl 0) eqn:E; [|reflexivity]. apply Qltb_lt in E. lra. }
+  assert (B3 : Qltb (eff_max_grad a + eps) (Qabs amp) = false).
+  { destruct (Qltb (eff_max_grad a + eps) (Qabs amp)) eqn:E; [|reflexivity]. apply Qltb_lt in E. lra. }
+  assert (B4 : Qltb (eff_max_slew a * (1 + eps)) (Qabs amp / r) = false).
+  { destruct (Qltb (eff_max_slew a * (1 + eps)) (Qabs amp / r)) eqn:E; [|reflexivity]. apply Qltb_lt in E. lra. }
+  rewrite B1, B2, B3, B4. eexists. reflexivity.
+Qed.
